@@ -129,6 +129,11 @@ def run_scenario(progs, threaded, seed=0, policy="random", schedule=None, max_st
     def make_cb(f, i):
       def cb():
         ctl.op("run", ["F", "", f, i], lambda: None)
+        if i == 1:
+          # the first function each foreign thread hands over FAILS after it has run: that is the function's
+          # business - every other function handed over must still run exactly once (Threads.tla: a failing
+          # function is a function that has run; nothing else in the model depends on it)
+          raise RuntimeError("call-later'd function fails (scripted)")
       cb.vname = ["F", "", f, i]
       return cb
 
